@@ -689,9 +689,11 @@ def _syn_nonneg(t, depth=0):
 
 
 class Obligation:
-    __slots__ = ("label", "kind", "goal", "lhs", "rhs", "expect", "info", "core")
+    __slots__ = ("label", "kind", "goal", "lhs", "rhs", "expect", "info", "core", "abstract", "premises")
 
-    def __init__(self, label, kind, goal, lhs=None, rhs=None, expect="unsat", info=None, core=True):
+    def __init__(self, label, kind, goal, lhs=None, rhs=None, expect="unsat", info=None, core=True, abstract=False, premises=()):
+        self.abstract = abstract
+        self.premises = list(premises)
         self.label = label
         self.kind = kind  # 'eq' | 'holds' | 'concrete'
         self.goal = goal  # z3 Bool (the property; its negation is sent to the solver) or python bool
@@ -715,6 +717,9 @@ class PathResult:
         self.sqrt_defs = []
         self.poisons = {}
         self.inputs = {}
+        self.divs = []
+        self.subs = []
+        self.model = None
 
 
 class Engine:
@@ -732,6 +737,7 @@ class Engine:
         self.pos = 0
         self.pc = []
         self.sqrts = []
+        self.sqrt_terms = {}
         self.poisons = {}
         self.inputs = {}
         self.model = model
@@ -742,6 +748,9 @@ class Engine:
         self.notes = []
         self.obligations = []
         self.axioms = []
+        self.subs = []
+        if not hasattr(self, "unknown_sides"):
+            self.unknown_sides = []
 
     # -- inputs
     def real(self, name):
@@ -765,6 +774,19 @@ class Engine:
 
     def note(self, s):
         self.notes.append(s)
+
+    def abstract(self, value, name):
+        """cut point: a fresh variable standing for the term `value` (same term -> same variable)"""
+        if not isinstance(value, SymReal):
+            return value
+        if const_value(value.e) is not None:
+            return value
+        for t, f in self.subs:
+            if t.eq(value.e):
+                return SymReal(f)
+        f = z3.Real("cut!%s" % name)
+        self.subs.append((value.e, f))
+        return SymReal(f)
 
     # -- constraints
     def _side(self, terms):
@@ -841,8 +863,16 @@ class Engine:
         else:
             rt, mt = self._check([cond])
             rf, mf = self._check([z3.Not(cond)])
-        if "unknown" in (rt, rf):
+        if rt == "unknown" and rf == "unknown":
             raise Inconclusive("branch-feasibility-unknown", "%s at %s" % (str(c)[:160], _where()))
+        if "unknown" in (rt, rf):
+            # one side is known feasible, the other could not be decided: follow the feasible side and report the
+            # other one as an unexplored (inconclusive) path instead of losing both
+            self.unknown_sides.append("%s side of %s at %s" % ("False" if rf == "unknown" else "True", str(c)[:120], _where()))
+            if rt == "unknown":
+                rt = "unsat"
+            else:
+                rf = "unsat"
         if rt == "sat" and rf == "sat":
             self.stack.append((self.decisions[: self.pos] + [False], mf))
             d = True
@@ -876,12 +906,19 @@ class Engine:
         k = simp(e)
         for kk, s in self.sqrts:
             if kk.eq(k):
+                # same value through a syntactically different term: state the definition for this term as well,
+                # so that cut-point substitution of sub-terms keeps the link
+                seen = self.sqrt_terms.setdefault(s.decl().name(), [])
+                if not any(t.eq(e) for t in seen):
+                    seen.append(e)
+                    self.pc.append(s * s == e)
                 return SymReal(s)
         if not _syn_nonneg(e) and not _syn_nonneg(k):
             if not (x >= 0):
                 return self.poison("sqrt-negative")
         s = z3.Real("sqrt!%d" % len(self.sqrts))
         self.sqrts.append((k, s))
+        self.sqrt_terms[s.decl().name()] = [e]
         self.pc.append(z3.And(s >= 0, s * s == e))
         self.model = None  # the model does not know the new variable's constraint
         return SymReal(s)
@@ -892,9 +929,11 @@ class Engine:
         global _CUR
         self.stack = [([], None)]
         out = []
+        self.unknown_sides = []
         while self.stack:
             decisions, model = self.stack.pop()
             self._reset(decisions, model)
+            self.unknown_sides = []
             _CUR = self
             pr = PathResult()
             try:
@@ -923,8 +962,14 @@ class Engine:
             pr.sqrt_defs = list(self.sqrts)
             pr.poisons = dict(self.poisons)
             pr.inputs = dict(self.inputs)
+            pr.subs = list(self.subs)
             pr.model = self.model
             out.append(pr)
+            for u in self.unknown_sides:
+                pu = PathResult()
+                pu.status = "inconclusive"
+                pu.detail = "unexplored: feasibility unknown for the " + u
+                out.append(pu)
             if on_path is not None:
                 on_path(pr)
             if len(out) >= self.max_paths:
